@@ -2,7 +2,7 @@
 (* C01 / C02: queries on real GameData handles over synthetic installations,  *)
 (* and raw dat reads, judged against SqPack.tla.  Contents are run-length     *)
 (* encoded (<< <<byte, count>>, ... >>, maximal runs) on both sides.          *)
-EXTENDS SqPack, TraceLib
+EXTENDS SqPack, Excel, TextFormats, TraceLib
 
 VARIABLES l, inst       \* inst: handle -> [disk, contents]
 vars == <<l, inst>>
@@ -64,6 +64,61 @@ Read(e) ==
   /\ Require(l, "read-" \o e.desc.kind, Sig(e), IsSome(e.res) /\ e.res.v.v = Extract(e.desc))
   /\ UNCHANGED inst
 
+\* ---- C05: Excel sheets --------------------------------------------------------------
+ExpandRle(r) == Flatten([i \in 1..Len(r) |-> [j \in 1..r[i][2] |-> r[i][1]]])
+ObsHeaderOk(o, exp) ==
+  /\ o.data_offset = exp.data_offset /\ o.columns = exp.columns /\ o.pages = exp.pages /\ o.row_count = exp.row_count
+  /\ o.nlangs = exp.nlangs /\ (exp.nlangs >= 1 => o.lang1 = exp.lang1)
+RowChecks(exh, d, rows, case) ==
+  \A i \in 1..Len(rows) :
+     LET id == rows[i].id
+         r == rows[i].res
+     IN IF HasRow(d, id)
+        THEN LET want == ReadRow(exh, d, id)
+                 kind == IF exh.variant = 2 /\ Len(want) = 1 THEN "excel-single-subrow" ELSE "excel-row"
+             IN IF IsSome(r) /\ r.v.v = want THEN TRUE
+                ELSE Mismatch(l, kind, <<case, id>>, want, IF IsSome(r) THEN r.v.v ELSE r)
+        ELSE Require(l, "excel-unknown-row", <<case, id>>, IsValue(r) /\ ~r.v.some)
+ExcelRead(e) ==
+  LET exp == ParseExh(e.exh)
+  IN /\ Require(l, "exh-header", Sig(e), IsSome(e.res.exh) /\ ObsHeaderOk(e.res.exh.v.v, exp))
+     /\ Require(l, "exd-parse", Sig(e), IsValue(e.res.exd) /\ e.res.exd.v)
+     /\ IF IsValue(e.res.exd) /\ e.res.exd.v THEN RowChecks(exp, e.exd, e.res.rows, e.case) ELSE TRUE
+     /\ UNCHANGED inst
+
+\* bytes of the standard file stored under a path of installation h (<<>> with ok = FALSE if absent)
+FileBytes(h, p) ==
+  LET d == inst[h].disk
+      oe == inst[h].ev
+      locs == Locations(d, p)
+      idx == {j \in 1..Len(oe.contents) : \E loc \in locs :
+                /\ oe.contents[j].repo = PathRepo(p, d.repos) /\ oe.contents[j].cat = PathCategory(p)
+                /\ oe.contents[j].chunk = loc.chunk /\ oe.contents[j].dat = loc.dat /\ oe.contents[j].off = loc.off}
+  IN IF ~Stored(d, p) \/ idx = {} THEN [ok |-> FALSE, b |-> <<>>]
+     ELSE [ok |-> TRUE, b |-> ExpandRle(RleCat((oe.contents[CHOOSE j \in idx : TRUE]).desc.blocks))]
+ExcelSheet(e) ==
+  LET root == FileBytes(e.h, RootPath)
+      listed == IF root.ok THEN ParseExl(root.b).entries ELSE <<>>
+      names == [i \in 1..Len(listed) |-> listed[i][1]]
+      inList == \E i \in 1..Len(names) : names[i] = e.name
+      hfile == FileBytes(e.h, ExhPath(e.name))
+      hexp == ParseExh(hfile.b)
+      haveHeader == root.ok /\ inList /\ hfile.ok
+  IN /\ IF root.ok THEN Require(l, "sheet-names", Sig(e), IsSome(e.res.names) /\ e.res.names.v.v = names)
+        ELSE Require(l, "sheet-names-absent", Sig(e), IsValue(e.res.names) /\ ~e.res.names.v.some)
+     /\ IF haveHeader
+        THEN Require(l, "sheet-header", Sig(e), IsSome(e.res.header) /\ ObsHeaderOk(e.res.header.v.v, hexp))
+        ELSE Require(l, "sheet-header-absent", Sig(e), IsValue(e.res.header) /\ ~e.res.header.v.some)
+     /\ Require(l, "exd-filename", Sig(e), IsValue(e.res.fname) /\ e.res.fname.v = ExdName(e.name, e.lang, e.start))
+     /\ IF haveHeader /\ e.page < Len(hexp.pages)
+        THEN LET pfile == FileBytes(e.h, ExdPath(e.name, e.lang, hexp.pages[e.page + 1][1]))
+             IN IF pfile.ok
+                THEN /\ Require(l, "sheet-page", Sig(e), IsSome(e.res.page))
+                     /\ IF IsSome(e.res.page) THEN RowChecks(hexp, pfile.b, e.res.page.v.v, e.case) ELSE TRUE
+                ELSE Require(l, "sheet-page-absent", Sig(e), IsValue(e.res.page) /\ ~e.res.page.v.some)
+        ELSE TRUE
+     /\ UNCHANGED inst
+
 Init == l = 1 /\ inst = <<>>
 Next ==
   /\ l <= Len(Rec)
@@ -71,6 +126,8 @@ Next ==
        [] Ev.op = "archive.query" -> IF Ev.h \in DOMAIN inst THEN Query(Ev) ELSE BadCase(l, "no handle") /\ UNCHANGED inst
        [] Ev.op = "archive.read"  -> Read(Ev)
        [] Ev.op = "archive.close" -> UNCHANGED inst
+       [] Ev.op = "excel.read"    -> ExcelRead(Ev)
+       [] Ev.op = "excel.sheet"   -> IF Ev.h \in DOMAIN inst THEN ExcelSheet(Ev) ELSE BadCase(l, "no handle") /\ UNCHANGED inst
        [] OTHER -> BadCase(l, "unknown event") /\ UNCHANGED inst
   /\ l' = l + 1
 Spec == Init /\ [][Next]_vars
